@@ -89,7 +89,7 @@ func (wtr *XMLWtr) container(lvl int) node.Node {
 			// a container, a list or a list entry
 			if lvl == 0 && first {
 				ns := wtr.getXmlns(r.Selection.Path)
-				ident := wtr.ident(r.Selection.Path) + " xmlns=" + "\"" + ns + "\""
+				ident := wtr.ident(r.Selection.Path) + xmlnsDecl(ns)
 				if err := wtr.beginContainer(ident); err != nil {
 					return err
 				}
@@ -176,7 +176,15 @@ func (wtr *XMLWtr) xmlnsAttr(p *node.Path) string {
 	if ns == "" {
 		return ""
 	}
-	return " xmlns=" + "\"" + ns + "\""
+	return xmlnsDecl(ns)
+}
+
+// xmlnsDecl is the default namespace declaration of a start tag; a namespace is
+// arbitrary text (a URI with a query has '&') and must be escaped as attribute value
+func xmlnsDecl(ns string) string {
+	var esc bytes.Buffer
+	xml.EscapeText(&esc, []byte(ns))
+	return " xmlns=" + "\"" + esc.String() + "\""
 }
 
 func (wtr *XMLWtr) beginContainer(ident string) (err error) {
